@@ -187,6 +187,28 @@ def check_msg(m):
             else:
                 true(devs, f"{tag}.other_getter_none", got is None, f"{g}() returned {got!r} for a {k} message")
     check_names_as_text(devs, m, want)
+    if k in ("put_request", "list_req", "list_resp"):
+        # the receiver fills in the names of an earlier decoded message (plain attributes of the decoded LV objects); decoding the same
+        # octets afterwards gives the packed parameters again
+        getter = GETTER_OF[k]
+        first = getattr(T.MessageToUserTlv.unpack(want).to_reserved_msg_tlv(), getter)()
+        true(devs, "decoded_again.first_decode_not_none", first is not None, "matching getter returned None")
+        if first is None:
+            return devs
+        holder = first[1] if k == "list_resp" else first
+        for lv_attr in (("source_file_name", "dest_file_name") if k == "put_request" else ("dir_path", "dir_file_name")):
+            lv = getattr(holder, lv_attr)
+            lv.value = b"filled-in"
+            lv.value_len = 9
+        again = getattr(T.MessageToUserTlv.unpack(want).to_reserved_msg_tlv(), getter)()
+        true(devs, "decoded_again_after_earlier_result_was_filled_in.not_none", again is not None, "matching getter returned None")
+        if again is None:
+            return devs
+        eq(devs, "decoded_again_after_earlier_result_was_filled_in.params", observe_params(k, again), want_params(m))
+        again_holder = again[1] if k == "list_resp" else again
+        lvs = [getattr(again_holder, a) for a in (("source_file_name", "dest_file_name") if k == "put_request" else ("dir_path", "dir_file_name"))]
+        eq(devs, "decoded_again_after_earlier_result_was_filled_in.lv_octets", [bytes(x.pack()).hex() for x in lvs],
+           [R.lv(bytes.fromhex(m[f])).hex() for f in (("src", "dst") if k == "put_request" else ("path", "file"))])
     if k == "put_request":
         from spacepackets.cfdp.lv import CfdpLv
         from spacepackets.util import ByteFieldGenerator
